@@ -335,6 +335,10 @@ def main(argv=None):
     if len(m['distinct']) < mins and not real:
         inconclusive.append('only %d distinct non-trivial cases (< %d)'
                             % (len(m['distinct']), mins))
+    if m['counters'].get('thread_stress_watchdog_fired') and not real:
+        inconclusive.append('the watchdog of a thread stress fired (threads '
+                            'did not finish in time; a loaded machine or a '
+                            'deadlock: not decided by wall-clock)')
     for name in conf.get('required_counters', []):
         if m['counters'].get(name, 0) + m['monitor_evaluations'].get(name, 0) \
                 == 0 and not real:
